@@ -930,6 +930,21 @@ func (x *Exec) external(st *State, fn *ssa.Function, args []Val, pos token.Pos) 
 		sl := x.strToRunes(st, s, types.NewSlice(types.Typ[types.Rune])).(VSlice)
 		return VT{sl.Len, types.Typ[types.Int]}, true
 	case "strings.ContainsRune":
+		if _, isConst := constStr(args[0].(VStr)); !isConst {
+			// symbolic string, constant ASCII rune: a byte-level search is exact (UTF-8 lead and
+			// continuation bytes are >= 0x80). The result is a fresh boolean with a witness.
+			c, ok := args[1].(VT).T.Int64()
+			if !ok || c < 0 || c >= 128 {
+				x.fail("strings.ContainsRune(s, r) with symbolic s needs a constant ASCII rune")
+			}
+			sv := args[0].(VStr)
+			b := term.Fresh("containsrune", term.Bool)
+			w := term.Fresh("containsrune.at", term.Int)
+			k := term.Bound("k", term.Int)
+			x.assume(st, term.Imp(b, term.And(term.Le(term.I(0), w), term.Lt(w, sv.Len), term.Eq(term.Select(sv.Arr, w), term.I(c)))))
+			x.assume(st, term.Or(b, term.Forall([]*T{k}, term.Imp(term.And(term.Le(term.I(0), k), term.Lt(k, sv.Len)), term.Ne(term.Select(sv.Arr, k), term.I(c))))))
+			return VT{b, types.Typ[types.Bool]}, true
+		}
 		idx := x.indexRune(st, args[0].(VStr), args[1].(VT).T)
 		return VT{term.Le(term.I(0), idx), types.Typ[types.Bool]}, true
 	case "strings.IndexRune":
